@@ -74,14 +74,14 @@ def check(pid, tier, seed):
                     lines.append("S t=%d" % (1 if g.edges[ei][2].startswith("T") else 0))
                 lines.append("E")
                 meta[xid] = path
-    n_y = {"quick": 240, "thorough": 6000}[tier]
+    n_y = {"quick": 240, "thorough": 200000}[tier]
     rnd = random.Random("thr-%s" % seed)
     for i in range(n_y):
         lines += ["X y%d mode=random kind=%d args=%d seed=%d" % (i, i % 4, (i // 4) % 3, rnd.randrange(1, 2 ** 31)), "E"]
     res = common.run_harness(exe, "\n".join(lines) + "\n")
     # 'poll' scenario on the access-instrumented build
     plines = []
-    n_poll = {"quick": 60, "thorough": 1000}[tier]
+    n_poll = {"quick": 60, "thorough": 40000}[tier]
     for i in range(n_poll):
         plines += ["X poll%d mode=random kind=4 args=0 ay=%d seed=%d" % (i, i % 2, rnd.randrange(1, 2 ** 31)), "E"]
     # on this build every atomic operation can be made a scheduling point (ay=1): the new thread may then run, and even
